@@ -181,7 +181,7 @@ static int check_single_frequency_range(const char *function,
 
     _vnacal_get_parameter_frange(vpmrp, &pfmin, &pfmax);
     lower = (1.0 + VNACAL_F_EXTRAPOLATION) * fmin;
-    upper = (1.0 - VNACAL_F_EXTRAPOLATION) * fmin;
+    upper = (1.0 - VNACAL_F_EXTRAPOLATION) * fmax;
     if (pfmin > lower || pfmax < upper) {
 	_vnacal_error(vcp, VNAERR_USAGE, "%s: frequency range %.3e..%.3e of "
 		"parameter %d is outside of calibration range %.3e..%.3e",
